@@ -186,6 +186,37 @@ Theorem C13_codepoint_memory_safe : forall s i strict, nl_utf8codepoint s i stri
 Proof. exact codepoint_memory_safe. Qed.
 Print Assumptions C13_codepoint_memory_safe.
 
+(* utf8.len / utf8.offset / utf8.codes: the loops around the decoder *)
+Theorem C13_utf8len_eq_lua : forall s i j strict, in_i64 i -> in_i64 j -> slen s <= maxint ->
+  match lua_utf8len s i j strict with
+  | LVal r => nl_utf8len s i j strict = Val r
+  | LErr => nl_utf8len s i j strict = Trap
+  end.
+Proof. exact utf8len_eq_lua. Qed.
+Print Assumptions C13_utf8len_eq_lua.
+
+Theorem C13_utf8offset_eq_lua : forall s n i, in_i64 i -> slen s <= maxint ->
+  match lua_utf8offset s n i with
+  | LVal (Some v) => nl_utf8offset s n i = Val v
+  | LVal None => nl_utf8offset s n i = Val (-1)
+  | LErr => nl_utf8offset s n i = Trap
+  end.
+Proof. exact utf8offset_eq_lua. Qed.
+Print Assumptions C13_utf8offset_eq_lua.
+
+(* one step of the utf8.codes iterator; for the first step the subject must not start with a continuation
+   byte (Lua has raised in utf8.codes itself on such a subject; the port raises in its first step) *)
+Theorem C13_utf8codes_step_eq_lua : forall s i strict, 0 <= i <= slen s -> slen s <= maxint ->
+  (i = 0 -> iscont (rd s 0) = false) ->
+  nl_codes_step s i strict = lua_codes_step s i strict.
+Proof. exact codes_step_eq_lua. Qed.
+Print Assumptions C13_utf8codes_step_eq_lua.
+
+Theorem C13_utf8codes_first_cont : forall s strict, 0 < slen s -> 0 <= rd s 0 < 256 -> iscont (rd s 0) = true ->
+  nl_codes_step s 0 strict = StepErr.
+Proof. exact codes_first_cont. Qed.
+Print Assumptions C13_utf8codes_first_cont.
+
 (* ---- (f) string.pack / unpack of sized integers ---- *)
 Theorem C13_pack_unpack_int_roundtrip : forall a size little, 1 <= size <= 16 -> in_i64 a ->
   (size < 8 -> - 2 ^ (8 * size - 1) <= a < 2 ^ (8 * size - 1)) ->
